@@ -23,6 +23,9 @@ RULE = (
     "inline markup / blanks; distinct by (items, steps)."
     ' Also: save(+pretty)/reload between fills, a title set or changed after creation (set_toc_title), heading levels up to'
     ' 13 and outline levels up to 14.'
+    ' Second family (several TOCs): 2-3 TOCs with their own titles / outline levels at random places of one document, filled in a'
+    ' random order (with a save+reload in between): each filled TOC lists the headings by its own level under its own title, and'
+    ' filling one leaves the serialisation of the others unchanged.'
 )
 ASSUMPTIONS = [
     "numbering of skipped levels follows odfdo's documented convention (missing ancestor = 1); the property only asks for a consistent outline",
@@ -230,6 +233,81 @@ def run_case(case, ctx):
     ctx.count("skip-then-shallow" if skip_then_shallow else "plain-outline")
 
 
+def run_multi(case, ctx):
+    """Several tables of contents in one document, filled in any order: each lists the headings by its own outline level
+    under its own title, and filling one leaves the others as they were."""
+    from odfdo import Document, Paragraph
+    from odfdo.toc import TOC
+
+    specs = case["tocs"]
+    with ctx.guard(("C20", "multi-build", "exception"), case):
+        doc = Document("text")
+        body = doc.body
+        body.clear()
+        items = case["items"]
+        objs = [TOC(title=sp["title"], outline_level=sp["outline"]) if sp["title"] is not None else TOC(outline_level=sp["outline"]) for sp in specs]
+        place = sorted((sp["pos"] % (len(items) + 1), t) for t, sp in enumerate(specs))
+        for i in range(len(items) + 1):
+            for pos, t in place:
+                if pos == i:
+                    body.append(objs[t])
+            if i < len(items):
+                it = items[i]
+                body.append(make_heading(it["level"], it) if it["k"] == "h" else Paragraph(it["text"]))
+    order_in_doc = [t for _, t in place]
+    filled = set()
+    for n, pick in enumerate(case["order"]):
+        t = pick % len(specs)
+        with ctx.guard(("C20", "multi-fill", "exception"), case):
+            if case.get("reload") and n == case["reload"] % len(case["order"]):
+                buf = io.BytesIO()
+                doc.save(buf)
+                buf.seek(0)
+                doc = Document(buf)
+                got_tocs = doc.body.get_tocs()
+                ctx.check(len(got_tocs) == len(specs), ("C20", "multi-reload", "toc-count"), f"{len(got_tocs)} TOC after reload, {len(specs)} before", case)
+                for k, t_ in enumerate(order_in_doc):
+                    objs[t_] = got_tocs[k]
+            before = [o.serialize() for o in objs]
+            objs[t].fill()
+            filled.add(t)
+            after = [o.serialize() for o in objs]
+        for u in range(len(specs)):
+            if u != t:
+                ctx.check(before[u] == after[u], ("C20", "multi-fill", "other-toc-changed"),
+                          f"filling TOC #{t} changed TOC #{u}:\n{before[u]}\n->\n{after[u]}", case)
+        root = odfread.parse(doc.content.serialize())
+        tels = list(root.iter(odfread.q("text:table-of-content")))
+        ctx.check(len(tels) == len(specs), ("C20", "multi-fill", "toc-count"), f"{len(tels)} TOC elements, expected {len(specs)}", case)
+        heads = [h for h in root.iter(odfread.T_H)]
+        levels = [int(h.get(odfread.q("text:outline-level")) or 0) for h in heads]
+        texts = [odfread.ws_text(h) for h in heads]
+        for k, u in enumerate(order_in_doc):
+            if u not in filled:
+                continue
+            tel = tels[k]
+            bodies = [ch for ch in tel if ch.tag == odfread.q("text:index-body")]
+            ctx.check(len(bodies) == 1, ("C20", "multi-fill", "index-body-count"), f"TOC #{u}: {len(bodies)} index bodies", case)
+            ib = bodies[0]
+            depth = specs[u]["outline"] or 10
+            want = [f"{num} {texts[i]}" for i, num in outline_numbers(levels, depth)]
+            got = [odfread.ws_text(p_) for p_ in ib if p_.tag == odfread.T_P]
+            ctx.check(got == want, ("C20", "multi-fill", "entries"),
+                      f"TOC #{u} (outline level {specs[u]['outline']}), heading levels {levels}: lists {got!r}, expected {want!r}", case)
+            titles = [ch for ch in ib if ch.tag == odfread.q("text:index-title")]
+            title = specs[u]["title"] if specs[u]["title"] is not None else "Table of Contents"  # the constructor's documented default
+            if title:
+                ctx.check(len(titles) == 1 and ib[0] is titles[0] and len(titles[0]) and odfread.ws_text(titles[0][0]) == title, ("C20", "multi-fill", "title"),
+                          f"TOC #{u}: title {title!r} not kept first: {[odfread.ws_text(x) for x in titles]}", case)
+            else:
+                ctx.check(all(not odfread.ws_text(x) for x in titles), ("C20", "multi-fill", "title"),
+                          f"TOC #{u} was given no title and shows {[odfread.ws_text(x) for x in titles]}", case)
+    ctx.count("multi-toc")
+    if len({sp["title"] for sp in specs}) > 1 and len(filled) > 1:
+        ctx.nontrivial(case)
+        ctx.count("multi-toc:distinct-titles-several-filled")
+
+
 def replay(case, ctx):
     if "pair" in case:
         # two documents filled one after the other in the same process
@@ -242,7 +320,7 @@ def replay(case, ctx):
                 pass
         return
     try:
-        run_case(case, ctx)
+        run_multi(case, ctx) if "tocs" in case else run_case(case, ctx)
     except Abandon:
         pass
 
@@ -282,3 +360,24 @@ def run_shard(ctx):
         return t
 
     ctx.run_given(mk, ctx.budget(24000, 200000))
+
+    tspec = st.fixed_dictionaries({"pos": st.integers(0, 12), "outline": st.one_of(st.integers(0, 10), st.integers(0, 3)),
+                                   "title": st.one_of(st.none(), st.sampled_from(["Contents", "Chapters only", "Sommaire  général", "T2"]))})
+    mcases = st.fixed_dictionaries({
+        "items": st.lists(st.one_of(heading, heading, para), max_size=10),
+        "tocs": st.lists(tspec, min_size=2, max_size=3),
+        "order": st.lists(st.integers(0, 5), min_size=1, max_size=5),
+        "reload": st.one_of(st.just(0), st.integers(1, 5))})
+
+    def mk_multi():
+        @given(mcases)
+        def t(case):
+            ctx.ev()
+            try:
+                run_multi(case, ctx)
+                ctx.maybe_sample(case, 701)
+            except Abandon:
+                pass
+        return t
+
+    ctx.run_given(mk_multi, ctx.budget(4000, 50000), salt=2)
